@@ -374,7 +374,7 @@ fn check(args: &[String]) {
     if cold_total > 0 {
         let c = cold_phase(prop, seed, cold_total, workers, &known_path, &replay_dir, &tmp);
         cold_json = json!({
-            "what": "one seeded history (<= 24 operations) as the first thing a freshly started process does; no reference is computed until the history has ended, so process-global state is cold when the history's own constructions, conversions and calls run",
+            "what": "one seeded history (<= 24 operations) as the first thing a freshly started process does; no reference is computed until the history has ended, so process-global state is cold when the history's own constructions, conversions and calls run; the recorded calls are then judged twice: by the process itself and, as a second opinion, by the driver process whose global state has another history",
             "processes": c.runs, "nontrivial": c.nontrivial, "distinct_nontrivial": c.digests.len(),
             "steps": c.stats.steps, "cipher_calls": c.stats.cipher_calls, "conversions": c.stats.op_conv_ref + c.stats.op_conv_val, "clones": c.stats.op_clone,
             "wall_s": c.wall,
@@ -473,6 +473,8 @@ fn check(args: &[String]) {
             },
             "h_portable_xor": format!("{:016x}", portable_xor),
             "cold_start": cold_json,
+            "cross_process_anchors": {"what": "every worker process computes its pristine anchor table (every type, fixed key and input) in another seeded order of the types; the driver compares the tables entry by entry: a difference means that what a fresh instance returns depends on what ran earlier in the process",
+                "processes": anchor_tables.len(), "entries_per_table": anchor_tables.first().map(|t| t.1.len()).unwrap_or(0), "tables_identical": anchor_digests.len() <= 1},
             "grid": grid_json,
             "churn": churn_json,
             "notes": notes,
